@@ -415,7 +415,8 @@ def spec_check(c, rec, header):
         return "expected the date %r, got %s %r" % (civil(want), k, v)
     if v["days"] != want:
         return "expected the date %r (day %d), got %r (day %d)" % (civil(want), want, civil(v["days"]), v["days"])
-    if (v.get("tzn"), v.get("tzo")) == ("UTC", 0):
+    if True:
+        # a date is printed as its calendar date under every default zone (the zone moves clock times, not dates)
         text = printed(c["ops"][-1]["lang"], want, header["year"])
         if lines[0]["out"] != text:
             return "expected the text %r, got %r" % (text, lines[0]["out"])
